@@ -1,6 +1,7 @@
 import Driver.Util
 import Driver.SecAlg
 import Driver.Aper
+import Driver.AperSyn
 import Driver.NasCodec
 import Driver.NasCtor
 import Driver.SecHist
@@ -20,7 +21,7 @@ open Driver
 /-- op name → handler. Each domain lives in its own `Driver/<Domain>.lean` and exports `<domain>Handlers`;
     add one import above and one `++` here. -/
 def handlers : List (String × Handler) :=
-  secAlgHandlers ++ aperHandlers ++ secHistHandlers ++ milenageHandlers ++ akaHandlers ++ nasCodecHandlers ++ extractHandlers ++ configHandlers ++ nasCtorHandlers
+  secAlgHandlers ++ aperHandlers ++ aperSynHandlers ++ secHistHandlers ++ milenageHandlers ++ akaHandlers ++ nasCodecHandlers ++ extractHandlers ++ configHandlers ++ nasCtorHandlers
     ++ suciHandlers ++ ueHandlers ++ convHandlers ++ failStopHandlers ++ buildersHandlers ++ concHandlers ++ convoHandlers
 
 def step (line : String) : String :=
